@@ -221,7 +221,8 @@ func (t *Term) Resize(cols, rows int) {
 				// a wide glyph cut by the new edge is terminal-specific
 				if cols < len(s.cells[r]) && cols > 0 && s.cells[r][cols].W == 0 {
 					for c := cols - 1; c >= 0; c-- {
-						nc[r][c].Poison = "wide glyph cut by resize"
+						// what is left of it is an ordinary cell again
+						nc[r][c] = Cell{W: 1, Style: nc[r][c].Style, Poison: "wide glyph cut by resize"}
 						if s.cells[r][c].W != 0 {
 							break
 						}
